@@ -269,6 +269,22 @@ PROPS["C17"] = {
                    "thread interleavings are sampled by the stress run, not enumerated (no model checker for the Rust threads is used)"],
 }
 
+PROPS["C18"] = {
+    "streams": [{"name": "ovl"}],
+    "model_is_spec": ["ovl"],
+    "spec_theorem": "the model's overlay clock is continuous across frequency changes, steps by exactly the requested offset, and advances at (1 + ppm/10^6) to within one unit of 2^-32 ns (C18.frequency_change_continuous, step_exact, rate)",
+    "rule": "ovl: an OverlayClock over a test clock the stream controls: sequences of up to 50 operations - advances of the underlying "
+            "clock (0, sub-ns, up to 10^4 s), set_frequency (0, ±500 ppm, integer and /1024 ppm values, arbitrary 2^-32 ppm values), step_clock "
+            "(0, ±10 s, sub-ns, log-uniform magnitudes of both signs), now, time_from_underlying - over underlying clocks starting at 0, near "
+            "2^48 s and anywhere between. Compared: every returned time, bit-exact. Independent oracle in exact integer arithmetic: a "
+            "frequency change returns the reading before it and leaves it unchanged; a step returns and leaves the reading before it plus "
+            "the offset, exactly; between adjustments the reading advances by du·(1+ppm/10^6) within 3 units of 2^-32 ns; conversion of the "
+            "current underlying time equals now(). distinct = distinct op lines",
+    "explanation": "Lean theorems over the exact bit-pattern model of the affine map; ppm enters as the I96F32 value the f64 is converted to",
+    "assumptions": ["ppm values are driven as multiples of 2^-32 (exactly representable in f64 and in I96F32), so the f64 -> fixed conversion is exact; other f64 values differ by its rounding (< 2^-33 ppm)",
+                    "overlay times that would be negative are outside the property (Time is unsigned and saturates at zero)"],
+}
+
 
 def split_obs(obs):
     """(items, status, state) of an instance-stream observation line"""
